@@ -887,10 +887,263 @@ Proof.
   - right. exists pre, post. rewrite I4. repeat split; assumption.
 Qed.
 
+(* ================= the valve under concurrency ================= *)
+Definition cnt (p : thread -> bool) (l : list thread) : nat := length (filter p l).
+Definition b2n (b : bool) : nat := if b then 1 else 0.
+
+Definition holds (t : thread) : bool :=
+  match t with
+  | TW W1 | TW W2 | TW W3 | TW W4 | TW W5 | TS S1 | TS S2 => true
+  | _ => false
+  end.
+Definition atW23 (t : thread) : bool := match t with TW W2 | TW W3 => true | _ => false end.
+Definition atW3 (t : thread) : bool := match t with TW W3 => true | _ => false end.
+Definition atW2 (t : thread) : bool := match t with TW W2 => true | _ => false end.
+Definition atS12 (t : thread) : bool := match t with TS S1 | TS S2 => true | _ => false end.
+Definition atS2 (t : thread) : bool := match t with TS S2 => true | _ => false end.
+
+Lemma upd_cons : forall i t a l, upd (S i) t (a :: l) = a :: upd i t l.
+Proof. reflexivity. Qed.
+
+Lemma cnt_upd : forall p l i t t', nth_error l i = Some t ->
+  cnt p (upd i t' l) + b2n (p t) = cnt p l + b2n (p t').
+Proof.
+  intros p. induction l as [|a l IH]; intros [|i] t t' H; cbn in H; try discriminate.
+  - inversion H; subst. unfold upd, cnt. cbn. destruct (p t), (p t'); cbn; lia.
+  - specialize (IH i t t' H). rewrite upd_cons. unfold cnt in *. cbn [filter].
+    destruct (p a); cbn [length]; lia.
+Qed.
+
+Lemma cnt_pos : forall p l i t, nth_error l i = Some t -> p t = true -> 1 <= cnt p l.
+Proof.
+  intros p. induction l as [|a l IH]; intros [|i] t H Hp; cbn in H; try discriminate; unfold cnt in *; cbn [filter].
+  - inversion H; subst. rewrite Hp. cbn. lia.
+  - specialize (IH i t H Hp). destruct (p a); cbn [length]; lia.
+Qed.
+
+Lemma cnt_sum_le : forall p q r l,
+  (forall t, p t = true -> q t = false) ->
+  (forall t, p t = true \/ q t = true -> r t = true) ->
+  cnt p l + cnt q l <= cnt r l.
+Proof.
+  intros p q r l Hd Hr. induction l as [|a l IH]; [cbn; lia|]. unfold cnt in *. cbn [filter].
+  destruct (p a) eqn:Ep, (q a) eqn:Eq.
+  - rewrite (Hd a Ep) in Eq. discriminate.
+  - rewrite (Hr a (or_introl Ep)). cbn [length]. lia.
+  - rewrite (Hr a (or_intror Eq)). cbn [length]. lia.
+  - destruct (r a); cbn [length]; lia.
+Qed.
+
+Lemma cnt_le : forall p q l, (forall t, p t = true -> q t = true) -> cnt p l <= cnt q l.
+Proof.
+  intros p q l H. induction l as [|a l IH]; [cbn; lia|]. unfold cnt in *. cbn [filter].
+  destruct (p a) eqn:Ep; [rewrite (H a Ep); cbn [length]; lia|]. destruct (q a); cbn [length]; lia.
+Qed.
+
+Lemma holders_split : forall l, cnt atW23 l + cnt atS12 l <= cnt holds l.
+Proof.
+  intro l. apply cnt_sum_le.
+  - intros [[]|[]]; cbn; congruence.
+  - intros [[]|[]] [H|H]; cbn in *; congruence.
+Qed.
+
+Lemma w3_le_w23 : forall l, cnt atW3 l <= cnt atW23 l.
+Proof. intro l. apply cnt_le. intros [[]|[]]; cbn; congruence. Qed.
+
+Lemma w2_w3_split : forall l, cnt atW2 l + cnt atW3 l <= cnt atW23 l.
+Proof.
+  intro l. apply cnt_sum_le.
+  - intros [[]|[]]; cbn; congruence.
+  - intros [[]|[]] [H|H]; cbn in *; congruence.
+Qed.
+
+Lemma s2_le_s12 : forall l, cnt atS2 l <= cnt atS12 l.
+Proof. intro l. apply cnt_le. intros [[]|[]]; cbn; congruence. Qed.
+
+Definition cinv (s : cstate) : Prop :=
+  cnt holds (cths s) = b2n (clock s)
+  /\ (cnt atW23 (cths s) = 0 \/ copen s = true)
+  /\ (cnt atS2 (cths s) = 0 \/ copen s = false)
+  /\ exists sr k, fold_left serial_step (cevs s) (Some (false, 0)) = Some (sr, k)
+        /\ k = cnt atW3 (cths s) /\ (sr = true -> copen s = false).
+
+Ltac cfacts E t' :=
+  pose proof (cnt_upd holds _ _ _ t' E) as Fh;
+  pose proof (cnt_upd atW23 _ _ _ t' E) as F23;
+  pose proof (cnt_upd atW3 _ _ _ t' E) as F3;
+  pose proof (cnt_upd atS12 _ _ _ t' E) as F12;
+  pose proof (cnt_upd atS2 _ _ _ t' E) as F2;
+  cbn [holds atW23 atW3 atS12 atS2 b2n] in Fh, F23, F3, F12, F2.
+
+Lemma cstep_inv : forall s i, cinv s -> cinv (cstep s i).
+Proof.
+  intros s i (I1 & I2 & I3 & sr & k & I4 & I5 & I6). unfold cstep.
+  destruct (nth_error (cths s) i) as [t|] eqn:E; [|repeat split; eauto].
+  pose proof (holders_split (cths s)) as P1. pose proof (w3_le_w23 (cths s)) as P2.
+  pose proof (s2_le_s12 (cths s)) as P3.
+  assert (Hb : b2n (clock s) <= 1) by (destruct (clock s); cbn; lia).
+  destruct t as [[]|[]].
+  - (* W0: Lock *)
+    destruct (clock s) eqn:El; [repeat split; eauto; rewrite El; exact I1|].
+    cfacts E (TW W1). unfold cinv. cbn [clock copen cths cevs b2n] in *.
+    split; [lia|]. split; [destruct I2; [left; lia|now right]|]. split; [destruct I3; [left; lia|now right]|].
+    exists sr, k. repeat split; auto; lia.
+  - (* W1: the nil test *)
+    pose proof (cnt_pos holds _ _ _ E eq_refl) as Hp.
+    destruct (copen s) eqn:Eo.
+    + cfacts E (TW W2). unfold cinv. cbn [clock copen cths cevs] in *.
+      split; [lia|]. split; [now right|]. split; [destruct I3 as [I3|I3]; [left; lia|congruence]|].
+      exists sr, k. repeat split; auto; lia.
+    + cfacts E (TW W5). unfold cinv. cbn [clock copen cths cevs] in *.
+      split; [lia|]. split; [left; destruct I2 as [I2|I2]; [lia|congruence]|]. split; [now right|].
+      exists sr, k. repeat split; auto; lia.
+  - (* W2: the underlying Write begins *)
+    pose proof (cnt_pos atW23 _ _ _ E eq_refl) as Hp.
+    assert (Ho : copen s = true) by (destruct I2; [lia|assumption]).
+    assert (Hsr : sr = false) by (destruct sr; [rewrite (I6 eq_refl) in Ho; discriminate|reflexivity]).
+    pose proof (cnt_pos holds _ _ _ E eq_refl) as Hh.
+    cfacts E (TW W3). unfold cinv. cbn [clock copen cths cevs] in *.
+    split; [lia|]. split; [now right|]. split; [destruct I3 as [I3|I3]; [left; lia|congruence]|].
+    (* nothing else is in flight: the holder is unique *)
+    assert (Hk : k = 0).
+    { subst k. pose proof (w2_w3_split (cths s)) as P4.
+      pose proof (cnt_pos atW2 _ _ _ E eq_refl) as Hp2.
+      (* this thread is at W2 and holds the lock alone: nothing is at W3 *)
+      lia. }
+    exists false, 1. rewrite fold_left_app, I4, Hsr, Hk. cbn. repeat split; try reflexivity; try discriminate; lia.
+  - (* W3: the underlying Write ends *)
+    pose proof (cnt_pos atW23 _ _ _ E eq_refl) as Hp.
+    pose proof (cnt_pos atW3 _ _ _ E eq_refl) as Hp3.
+    assert (Ho : copen s = true) by (destruct I2; [lia|assumption]).
+    assert (Hsr : sr = false) by (destruct sr; [rewrite (I6 eq_refl) in Ho; discriminate|reflexivity]).
+    cfacts E (TW W4). unfold cinv. cbn [clock copen cths cevs] in *.
+    split; [lia|]. split; [now right|]. split; [destruct I3 as [I3|I3]; [left; lia|congruence]|].
+    destruct k as [|k']; [lia|].
+    exists false, k'. rewrite fold_left_app, I4, Hsr. cbn.
+    repeat split; try reflexivity; try discriminate; lia.
+  - (* W4: Unlock *)
+    pose proof (cnt_pos holds _ _ _ E eq_refl) as Hh.
+    cfacts E (TW WDone). unfold cinv. cbn [clock copen cths cevs b2n] in *.
+    split; [lia|]. split; [destruct I2; [left; lia|now right]|]. split; [destruct I3; [left; lia|now right]|].
+    exists sr, k. repeat split; auto; lia.
+  - (* W5: Unlock *)
+    pose proof (cnt_pos holds _ _ _ E eq_refl) as Hh.
+    cfacts E (TW WDone). unfold cinv. cbn [clock copen cths cevs b2n] in *.
+    split; [lia|]. split; [destruct I2; [left; lia|now right]|]. split; [destruct I3; [left; lia|now right]|].
+    exists sr, k. repeat split; auto; lia.
+  - repeat split; eauto.
+  - (* S0: Lock *)
+    destruct (clock s) eqn:El; [repeat split; eauto; rewrite El; exact I1|].
+    cfacts E (TS S1). unfold cinv. cbn [clock copen cths cevs b2n] in *.
+    split; [lia|]. split; [destruct I2; [left; lia|now right]|]. split; [destruct I3; [left; lia|now right]|].
+    exists sr, k. repeat split; auto; lia.
+  - (* S1: writer = nil *)
+    pose proof (cnt_pos holds _ _ _ E eq_refl) as Hh.
+    pose proof (cnt_pos atS12 _ _ _ E eq_refl) as Hs.
+    cfacts E (TS S2). unfold cinv. cbn [clock copen cths cevs] in *.
+    split; [lia|]. split; [left; lia|]. split; [now right|].
+    exists sr, k. repeat split; auto; lia.
+  - (* S2: Unlock, Shut returns *)
+    pose proof (cnt_pos holds _ _ _ E eq_refl) as Hh.
+    pose proof (cnt_pos atS12 _ _ _ E eq_refl) as Hs.
+    pose proof (cnt_pos atS2 _ _ _ E eq_refl) as Hs2.
+    assert (Ho : copen s = false) by (destruct I3; [lia|assumption]).
+    cfacts E (TS SDone). unfold cinv. cbn [clock copen cths cevs b2n] in *.
+    split; [lia|]. split; [left; lia|]. split; [now right|].
+    assert (Hk : k = 0) by lia.
+    exists true, 0. rewrite fold_left_app, I4, Hk. cbn. repeat split; try reflexivity; auto; lia.
+  - repeat split; eauto.
+Qed.
+
+Lemma crun_inv : forall sched s, cinv s -> cinv (crun s sched).
+Proof.
+  induction sched as [|i sched IH]; intros s H; [exact H|]. cbn. apply IH. now apply cstep_inv.
+Qed.
+
+Lemma cnt_repeat_false : forall p t n, p t = false -> cnt p (repeat t n) = 0.
+Proof. intros p t n H. induction n as [|n IH]; [reflexivity|]. unfold cnt in *. cbn. now rewrite H. Qed.
+
+Lemma cnt_app : forall p a b, cnt p (a ++ b) = cnt p a + cnt p b.
+Proof. intros. unfold cnt. now rewrite filter_app, app_length. Qed.
+
+Lemma cinit_inv : forall open nw ns, cinv (cinit open nw ns).
+Proof.
+  intros open nw ns. unfold cinv, cinit. cbn [clock copen cths cevs fold_left b2n].
+  rewrite !cnt_app, !cnt_repeat_false by reflexivity.
+  split; [reflexivity|]. split; [now left|]. split; [now left|].
+  exists false, 0. repeat split; try reflexivity; discriminate.
+Qed.
+
+(* every interleaving of any number of writers and shutters *)
+Lemma valve_concurrent_serial : forall open nw ns sched,
+  trace_serial (cevs (crun (cinit open nw ns) sched)) = true.
+Proof.
+  intros. destruct (crun_inv sched _ (cinit_inv open nw ns)) as (_ & _ & _ & sr & k & H & _).
+  unfold trace_serial. now rewrite H.
+Qed.
+
+Lemma ok_none : forall tr, fold_left ok_step tr None = None.
+Proof. induction tr as [|e tr IH]; [reflexivity|]. exact IH. Qed.
+
+Lemma serial_none : forall tr, fold_left serial_step tr None = None.
+Proof. induction tr as [|e tr IH]; [reflexivity|]. cbn. exact IH. Qed.
+
+Lemma serial_ok_gen : forall tr st r, fold_left serial_step tr st = Some r ->
+  fold_left ok_step tr st = Some r.
+Proof.
+  induction tr as [|e tr IH]; intros st r H; [exact H|]. cbn [fold_left] in *.
+  destruct st as [[sr k]|]; [|rewrite serial_none in H; discriminate].
+  destruct k as [|k]; destruct e as [t|t|t]; try (apply IH; exact H).
+  cbn in H. rewrite serial_none in H. discriminate.
+Qed.
+
+Lemma serial_ok : forall tr, trace_serial tr = true -> trace_ok tr = true.
+Proof.
+  intros tr H. unfold trace_serial, trace_ok in *.
+  destruct (fold_left serial_step tr (Some (false, 0))) as [r|] eqn:E; [|discriminate].
+  now rewrite (serial_ok_gen _ _ _ E).
+Qed.
+
+(* the counting reading of the scan *)
+Lemma ok_counts : forall tr sr0 k0 sr k, fold_left ok_step tr (Some (sr0, k0)) = Some (sr, k) ->
+  length (filter is_fwd_begin tr) + k0 = length (filter is_fwd_end tr) + k.
+Proof.
+  induction tr as [|e tr IH]; intros sr0 k0 sr k H; cbn [fold_left] in H.
+  - inversion H; subst. reflexivity.
+  - destruct e as [t|t|t]; cbn [ok_step filter is_fwd_begin is_fwd_end length] in *.
+    + destruct sr0; [rewrite ok_none in H; discriminate|]. apply IH in H. lia.
+    + destruct sr0; [rewrite ok_none in H; discriminate|].
+      destruct k0 as [|k0]; [rewrite ok_none in H; discriminate|]. apply IH in H. lia.
+    + destruct k0 as [|k0]; [|rewrite ok_none in H; discriminate]. apply IH in H. lia.
+Qed.
+
+Lemma ok_after_shut : forall tr r, fold_left ok_step tr (Some (true, 0)) = Some r ->
+  Forall (fun e => is_shut_ret e = true) tr.
+Proof.
+  induction tr as [|e tr IH]; intros r H; [constructor|]. cbn [fold_left] in H.
+  destruct e as [t|t|t]; cbn [ok_step] in H; try (rewrite ok_none in H; discriminate).
+  constructor; [reflexivity|]. eapply IH; eauto.
+Qed.
+
+Lemma trace_ok_safe : forall tr, trace_ok tr = true -> trace_safe tr.
+Proof.
+  intros tr H pre t post ->. unfold trace_ok in H. rewrite fold_left_app in H.
+  destruct (fold_left ok_step pre (Some (false, 0))) as [[sr k]|] eqn:E;
+    [|rewrite ok_none in H; discriminate].
+  cbn [fold_left ok_step] in H. destruct k as [|k]; [|rewrite ok_none in H; discriminate].
+  apply ok_counts in E. split; [lia|].
+  destruct (fold_left ok_step post (Some (true, 0))) as [r|] eqn:E2; [|discriminate].
+  eapply ok_after_shut; eauto.
+Qed.
+
+Lemma valve_concurrent : forall open nw ns sched,
+  trace_safe (cevs (crun (cinit open nw ns) sched)).
+Proof. intros. apply trace_ok_safe, serial_ok, valve_concurrent_serial. Qed.
+
 (* ================= the combined checker ================= *)
 Lemma c47_check_sound_all : forall c, check_c47 c = true -> c47_prop c.
 Proof.
-  intros [n ws s out|max ws out|ws s out hin ok|ws s out au|ws s out|i ops s out|open ops s out
+  intros [n ws s out|max ws out|ws s out hin ok|ws s out au|ws s out|i ops s out|open ops s out|nw ns tr
          |cl log ret|fl log ret|e n ret] H; cbn [check_c47 c47_prop] in *.
   - now apply check_cutoff_sound.
   - now apply check_lp_sound.
@@ -899,6 +1152,7 @@ Proof.
   - assumption.
   - now apply check_pre_sound.
   - now apply check_valve_sound.
+  - now apply trace_ok_safe.
   - now apply check_mc_sound.
   - now apply check_mf_sound.
   - unfold check_fc in H. apply andb_true_iff in H as [H1 H2].
@@ -907,7 +1161,7 @@ Qed.
 
 Lemma c47_model_passes_all : forall c, model_agrees c = true -> check_c47 c = true.
 Proof.
-  intros [n ws s out|max ws out|ws s out hin ok|ws s out au|ws s out|i ops s out|open ops s out
+  intros [n ws s out|max ws out|ws s out hin ok|ws s out au|ws s out|i ops s out|open ops s out|nw ns tr
          |cl log ret|fl log ret|e n ret] H; cbn [check_c47 model_agrees] in *.
   - apply wress_eqb_eq in H. subst. apply cutoff_run_passes.
   - apply lout_eqb_eq in H. subst. apply lp_run_passes.
@@ -920,6 +1174,7 @@ Proof.
   - apply wress_eqb_eq in H. subst. apply conc_run_check.
   - apply wress_eqb_eq in H. subst. apply pre_run_passes.
   - apply wress_eqb_eq in H. subst. apply valve_run_passes.
+  - now apply serial_ok.
   - pose proof (mc_close_check cl) as Hm. destruct (mc_close cl) as [l r].
     apply andb_true_iff in H as [H1 H2]. apply list_eqb_eq in H1. apply err_eqb_eq in H2. now subst.
   - pose proof (mf_flush_check fl) as Hm. destruct (mf_flush fl) as [l r].
@@ -972,4 +1227,11 @@ Lemma stream_examples :
      = [(1, ENil, [([1], 1, ENil)]); (1, ENil, [([2], 1, ENil)]); (0, EPre, []); (0, EPre, [])]
   /\ mc_close [ENil; ED 1; ED 2] = ([0; 1; 2], ED 1)
   /\ mf_flush [ENil; ED 1; ED 2] = ([0; 1], ED 1).
+Proof. repeat split; vm_compute; reflexivity. Qed.
+
+Lemma valve_concurrent_examples :
+  cevs (crun (cinit true 2 1) [0; 0; 0; 2; 2; 0; 0; 2; 2; 2; 1; 1; 1])
+    = [EvFwdBegin 0; EvFwdEnd 0; EvShutRet 2]
+  /\ trace_ok [EvFwdBegin 0; EvShutRet 2; EvFwdEnd 0] = false
+  /\ trace_ok [EvFwdBegin 0; EvFwdEnd 0; EvShutRet 2; EvFwdBegin 1] = false.
 Proof. repeat split; vm_compute; reflexivity. Qed.
